@@ -3,11 +3,12 @@
 package vm
 
 import (
+	"context"
 	"reflect"
 )
 
 // convertMap trys to covert the reflect.Value map to the map reflect.Type
-func convertMap(rv reflect.Value, rt reflect.Type) (reflect.Value, error) {
+func convertMap(ctx context.Context, rv reflect.Value, rt reflect.Type) (reflect.Value, error) {
 	rtKey := rt.Key()
 	rtElem := rt.Elem()
 
@@ -22,12 +23,12 @@ func convertMap(rv reflect.Value, rt reflect.Type) (reflect.Value, error) {
 	// Note this is costly for large maps.
 	mapKeys := rv.MapKeys()
 	for i := 0; i < len(mapKeys); i++ {
-		newKey, err := convertReflectValueToType(mapKeys[i], rtKey)
+		newKey, err := convertReflectValueToTypeContext(ctx, mapKeys[i], rtKey)
 		if err != nil {
 			return rv, err
 		}
 		value := rv.MapIndex(mapKeys[i])
-		value, err = convertReflectValueToType(value, rtElem)
+		value, err = convertReflectValueToTypeContext(ctx, value, rtElem)
 		if err != nil {
 			return rv, err
 		}
